@@ -778,10 +778,9 @@ func judgeEvo(c evoCase, excludeKnown bool) outcome {
 	ps := &projStats{dropped: map[string]int{}}
 	proj := projectStruct(nst, ost, v, 0, ps)
 	wantOld := ref.Normalise(otop, proj)
-	if excludeKnown && keep && ps.emptiedUnions > 0 {
-		// a union whose set member old does not know, re-written by old with keep_unknown_fields
-		return outcome{status: "excluded_known"}
-	}
+	// the shape of the listed finding: a union whose set member old does not know, re-written by old with
+	// keep_unknown_fields.  Reading it is still judged; only the re-write (and the rest of the chain) is left out.
+	knownShape := excludeKnown && keep && ps.emptiedUnions > 0
 	fail := func(format string, args ...interface{}) outcome {
 		return outcome{status: "judged", err: fmt.Errorf(format, args...), notes: notes, ps: ps}
 	}
@@ -846,6 +845,9 @@ func judgeEvo(c evoCase, excludeKnown bool) outcome {
 					return fail("hop %d: %s %s.CarryingUnknownFields() = %v but the object received %d unknown field(s) at its top level\n  bytes %x%s", hop, oldWho, c.Struct, *rb.carrying, n, data, ctx)
 				} else {
 					notes = append(notes, fmt.Sprintf("carrying:%v", n > 0))
+				}
+				if knownShape {
+					return outcome{status: "excluded_known", notes: notes, ps: ps}
 				}
 				// (b) re-written bytes decode under the NEW schema to the original value
 				if rb.reerr != nil {
